@@ -3,6 +3,7 @@ package bsonkit
 import (
 	"bytes"
 	"math"
+	"math/big"
 	"strings"
 
 	"github.com/shopspring/decimal"
@@ -55,6 +56,17 @@ func Compare(lv, rv interface{}) int {
 }
 
 func compareNumbers(lv, rv interface{}) int {
+	// order non-finite values explicitly if a decimal is involved, as these
+	// cannot be converted: NaN < -Inf < finite numbers < +Inf
+	_, ld := lv.(primitive.Decimal128)
+	_, rd := rv.(primitive.Decimal128)
+	if ld || rd {
+		lr, rr := numberRank(lv), numberRank(rv)
+		if lr != finiteRank || rr != finiteRank {
+			return compareInt32s(int32(lr), int32(rr))
+		}
+	}
+
 	switch l := lv.(type) {
 	case float64:
 		switch r := rv.(type) {
@@ -65,10 +77,9 @@ func compareNumbers(lv, rv interface{}) int {
 		case int64:
 			return compareFloat64ToInt64(l, r)
 		case primitive.Decimal128:
-			// safeFloatToDec guards against float64 NaN/±Inf, which would
-			// otherwise panic decimal.NewFromFloat (collapses to zero —
-			// non-finite ordering is a known imprecision, see math.go TODO)
-			return safeFloatToDec(l).Cmp(safeD128ToDec(r))
+			// non-finite values have been handled above, the float is
+			// converted exactly to compare by mathematical value
+			return exactFloatToDec(l).Cmp(safeD128ToDec(r))
 		}
 	case int32:
 		switch r := rv.(type) {
@@ -95,7 +106,7 @@ func compareNumbers(lv, rv interface{}) int {
 	case primitive.Decimal128:
 		switch r := rv.(type) {
 		case float64:
-			return safeD128ToDec(l).Cmp(safeFloatToDec(r))
+			return safeD128ToDec(l).Cmp(exactFloatToDec(r))
 		case int32:
 			return safeD128ToDec(l).Cmp(decimal.NewFromInt32(r))
 		case int64:
@@ -106,6 +117,60 @@ func compareNumbers(lv, rv interface{}) int {
 	}
 
 	panic("bsonkit: unreachable")
+}
+
+const (
+	nanRank = iota
+	negInfRank
+	finiteRank
+	posInfRank
+)
+
+// numberRank classifies a number as NaN, -Inf, finite or +Inf.
+func numberRank(v interface{}) int {
+	switch n := v.(type) {
+	case float64:
+		if math.IsNaN(n) {
+			return nanRank
+		} else if math.IsInf(n, -1) {
+			return negInfRank
+		} else if math.IsInf(n, 1) {
+			return posInfRank
+		}
+	case primitive.Decimal128:
+		if n.IsNaN() {
+			return nanRank
+		} else if n.IsInf() < 0 {
+			return negInfRank
+		} else if n.IsInf() > 0 {
+			return posInfRank
+		}
+	}
+
+	return finiteRank
+}
+
+// exactFloatToDec converts a finite float64 to its exact decimal expansion.
+func exactFloatToDec(f float64) decimal.Decimal {
+	// guard non-finite values
+	if math.IsNaN(f) || math.IsInf(f, 0) {
+		return decimal.Decimal{}
+	}
+
+	// split into integer mantissa and binary exponent: f = mant * 2^exp
+	frac, exp := math.Frexp(f)
+	mant := big.NewInt(int64(frac * (1 << 53)))
+	exp -= 53
+
+	// scale up by 2^exp
+	if exp >= 0 {
+		return decimal.NewFromBigInt(mant.Lsh(mant, uint(exp)), 0)
+	}
+
+	// otherwise use mant / 2^-exp = mant * 5^-exp / 10^-exp
+	pow := new(big.Int).Exp(big.NewInt(5), big.NewInt(int64(-exp)), nil)
+
+	return decimal.NewFromBigInt(mant.Mul(mant, pow), int32(exp))
 }
 
 func compareStrings(lv, rv interface{}) int {
